@@ -263,13 +263,18 @@ func ParseBOCInfo(b []byte) (*BocInfo, error) {
 	if absent != 0 || roots < 1 || cells < 1 { // the reference C++ writer emits duplicate roots, so roots may exceed cells
 		return nil, errors.New("counts")
 	}
-	if err := need(roots * size); err != nil {
-		return nil, err
-	}
 	rootIdx := make([]int, roots)
-	for i := range rootIdx {
-		rootIdx[i] = int(rdN(b[p:], size))
-		p += size
+	if magic == 0xb5ee9c72 {
+		if err := need(roots * size); err != nil {
+			return nil, err
+		}
+		for i := range rootIdx {
+			rootIdx[i] = int(rdN(b[p:], size))
+			p += size
+		}
+	} else if roots != 1 {
+		// serialized_boc_idx / serialized_boc_idx_crc32c: { roots = 1 }, no root_list, the root is cell 0
+		return nil, errors.New("legacy container with several roots")
 	}
 	var index []uint64
 	if hasIdx {
